@@ -181,6 +181,15 @@ def run(ck, m):
     from rules.c05 import rule_format_render
     rule_format_render(ck, m, "R3")
 
+    # the horizontal trim re-uses the colour sequences of the cut cell / nearest run leader: every run of the block renderer must be
+    # emitted self-contained (C02.R3's emission table, applied here)
+    from tiv.report import Scoped
+    import rules.c02 as c02
+    sc2 = Scoped(ck, "R2", lambda c: "update_buffer" in c, rids={"R3"})
+    sc2.strict_self_contained = True      # for the canvas, a run whose sequences depend on what was emitted before is a violation
+    c02.run(sc2, m)
+    ck.expect(sc2.kept >= 8, f"expected the block renderer's emission table (C02.R3) to be evaluated, got {sc2.kept} obligations")
+
     from rules.common import rule_memo_safety
     rule_memo_safety(ck, m, "MEMO", "C17")
 
